@@ -32,7 +32,7 @@ func tgt1(context.Context, rA) {}
 func TestC03Reentrancy(t *testing.T) {
 	run := vk.New("C03", "reentrancy")
 	defer run.Finish()
-	sites := []string{"handler", "ctxhandler", "asynchandler", "filter", "before", "beforectx", "after", "afterctx", "replayhandler", "asyncduringshutdown", "panichandler", "replayphase|memory", "replayphase|memory-paged", "replayphase|sqlite-mem", "replayphase|sqlite-file", "replayphase|sqlite-batch2", "replayphase|durable"}
+	sites := []string{"handler", "ctxhandler", "asynchandler", "filter", "before", "beforectx", "after", "afterctx", "replayhandler", "asyncduringshutdown", "syncduringshutdown", "panichandler", "replayphase|memory", "replayphase|memory-paged", "replayphase|sqlite-mem", "replayphase|sqlite-file", "replayphase|sqlite-batch2", "replayphase|durable"}
 	calls := []string{"pub-same", "pub-other", "subscribe", "subscribectx", "unsubscribe", "unsubscribe-self", "clear", "clearall", "has", "count"}
 	optss := []string{"-", "once", "sequential", "async+sequential"}
 	idx := 0
@@ -44,7 +44,7 @@ func TestC03Reentrancy(t *testing.T) {
 					continue
 				}
 				sig := site + "|" + call + "|" + opt
-				syncSeqSelf := (site == "handler" || site == "ctxhandler" || site == "filter" || site == "replayhandler") && opt == "sequential" && call == "pub-same"
+				syncSeqSelf := (site == "handler" || site == "ctxhandler" || site == "filter" || site == "replayhandler" || site == "syncduringshutdown") && opt == "sequential" && call == "pub-same"
 				if site == "filter" {
 					syncSeqSelf = false // the filter runs before the sequential lock is taken
 				}
@@ -137,7 +137,7 @@ func scenario(site, call, opt string) string {
 		// the bus's panic handler, called for a handler that panicked, calls back into the bus
 		opts = append(opts, ebu.WithPanicHandler(func(any, reflect.Type, any) { reenter() }))
 	}
-	if site == "replayhandler" || site == "asyncduringshutdown" {
+	if site == "replayhandler" || site == "asyncduringshutdown" || site == "syncduringshutdown" {
 		opts = append(opts, ebu.WithStore(ebu.NewMemoryStore()))
 	}
 	if kind, ok := strings.CutPrefix(site, "replayphase|"); ok {
@@ -157,6 +157,7 @@ func scenario(site, call, opt string) string {
 	var persistErr atomic.Value
 	opts = append(opts, ebu.WithPersistenceErrorHandler(func(_ any, _ reflect.Type, err error) { persistErr.Store(err.Error()) }))
 	gate := make(chan struct{})
+	inHandler := make(chan struct{})
 	bus = ebu.New(opts...)
 	var so []ebu.SubscribeOption
 	switch opt {
@@ -198,6 +199,10 @@ func scenario(site, call, opt string) string {
 		if err := ebu.SubscribeWithReplay(context.Background(), bus, "sub", func(rA) { reenter() }, so...); err != nil {
 			return "SubscribeWithReplay: " + err.Error()
 		}
+	case "syncduringshutdown":
+		// a handler (synchronous unless the option says otherwise) that is in the middle of its
+		// invocation when another goroutine calls Shutdown, and then calls back into the bus
+		ebu.Subscribe(bus, func(rA) { close(inHandler); <-gate; reenter() }, so...)
 	case "asyncduringshutdown":
 		// an async handler on a persistent bus that is still in flight when Shutdown is called and
 		// calls back into the bus while Shutdown waits for it
@@ -210,7 +215,24 @@ func scenario(site, call, opt string) string {
 	default:
 		ebu.Subscribe(bus, func(rA) {}, so...)
 	}
-	ebu.Publish(bus, rA{N: 1})
+	if site == "syncduringshutdown" {
+		pubDone := make(chan struct{})
+		go func() { defer close(pubDone); ebu.Publish(bus, rA{N: 1}) }()
+		<-inHandler
+		sd := make(chan error, 1)
+		go func() { sd <- bus.Shutdown(context.Background()) }()
+		for i := 0; i < 50; i++ {
+			runtime.Gosched()
+		}
+		time.Sleep(2 * time.Millisecond) // let Shutdown get going; either order is legal
+		close(gate)
+		<-pubDone
+		if err := <-sd; err != nil {
+			return "Shutdown with a live context returned " + err.Error()
+		}
+	} else {
+		ebu.Publish(bus, rA{N: 1})
+	}
 	if site == "asyncduringshutdown" {
 		sd := make(chan error, 1)
 		go func() { sd <- bus.Shutdown(context.Background()) }()
